@@ -479,6 +479,12 @@ def rule_self_exclusion(ctx, rule='R13.11'):
 
 
 def run(ctx):
+    from . import c15 as _c15
+    _c15.rule_axis_conditions(ctx)     # R15.9: cell membership treats x, y, z alike (a particle left in a wrong leaf is pruned from the collision walk)
+    from . import serial as _serial13
+    _serial13.rule_R05_2(ctx)          # R05.2: max_radius0/1 are persisted under their own names (the pruning radius survives a restart)
+    from . import protocol
+    protocol.rule_collision_step_size(ctx, 'R08.14')
     from . import edges as _edges
     _edges.rule_drift_magnitudes(ctx, 'R13.12')     # search radii grow with |dt|, also for backward integrations
     from . import edges
